@@ -214,6 +214,19 @@ MUTATIONS += [
     dict(id="C02-exec-keepmarked-becomes-live", prop="C02", file=PR, old="                        let pack = pack.into_index_pack(prune_time);\n                        indexer.add_remove(pack)?;\n                    }\n                }\n                PackToDo::Recover => {", new="                        let pack = pack.into_index_pack(prune_time);\n                        indexer.add(pack)?;\n                    }\n                }\n                PackToDo::Recover => {"),
 ]
 
+# ---- C05/C17 GlobalIndex::new_from_collector
+IXR = "crates/core/src/index.rs"
+MUTATIONS += [
+    dict(id="C05-globalindex-includes-marked", prop="C05", file=IXR, old="            collector.extend(index?.1.packs);", new="            collector.extend(index?.1.packs_to_delete);"),
+    dict(id="C05-globalindex-skips-file-after-first", prop="C05", file=IXR, old="            collector.extend(index?.1.packs);\n        }", new="            collector.extend(index?.1.packs);\n            break;\n        }"),
+]
+
+# ---- C17 typed wrappers of ReadIndex
+MUTATIONS += [
+    dict(id="C17-has-tree-looks-in-data", prop="C17", file=IXR, old="        self.has(BlobType::Tree, &BlobId::from(**id))", new="        self.has(BlobType::Data, &BlobId::from(**id))"),
+    dict(id="C17-get-data-looks-in-tree", prop="C17", file=IXR, old="        self.get_id(BlobType::Data, &BlobId::from(**id))", new="        self.get_id(BlobType::Tree, &BlobId::from(**id))"),
+]
+
 HARMLESS = [
     dict(id="H-C05-trees-symlink-continue", prop="C05", file=CK, old="        for node in tree.nodes {\n            match node.node_type {", new="        for node in tree.nodes {\n            if node.node_type == NodeType::Symlink {\n                continue;\n            }\n            match node.node_type {"),
 ]
